@@ -835,17 +835,14 @@ Lemma cur_lead0_id : forall lvs known filled,
   (forall lv v, In lv lvs -> In v (values lv) -> In v known) ->
   map (cur lvs (lead0 (unknown_values known filled))) filled = filled.
 Proof.
-  intros lvs known filled K1. rewrite <- (map_id filled) at 2. apply map_ext_in. intros r Hr.
+  intros lvs known filled K1. transitivity (map (fun x : val => x) filled); [|apply map_id].
+  apply map_ext_in. intros r Hr.
   unfold cur. destruct (hierb lvs r) eqn:Eh; [|reflexivity].
   unfold hierb in Eh. apply existsb_exists in Eh. destruct Eh as (l & Hl & Hm). apply mem_In in Hm.
   apply lead0_known. apply (K1 l r Hl Hm).
 Qed.
 
 (* ---- the property theorems (restated in Properties/C18.v) -------------------------------------- *)
-
-Section Packaged.
-(* no Variable/Hypothesis: everything is quantified explicitly in each statement *)
-End Packaged.
 
 Definition fitted (levels : list dict) (col : list val) (mfd : Z * Z) (drop : bool)
                   (c : chained) (g : gl) (lpv : vmap) : Prop :=
@@ -1031,4 +1028,31 @@ Proof.
   induction lvs as [|lv t IH]; intros v a; cbn [climbsb climbs].
   - apply val_eqb_eq.
   - rewrite orb_true_iff, andb_true_iff, !IH, mem_In. tauto.
+Qed.
+
+(* ---- a concrete instance (non-vacuity) ---------------------------------------------------------- *)
+Local Open Scope string_scope.
+Definition ex_levels : list dict :=
+  [ [(VStr "Lows", [VStr "Low-"; VStr "Low"; VStr "Lows"]); (VStr "Highs", [VStr "High-"; VStr "High"; VStr "Highs"])];
+    [(VStr "All", [VStr "Lows"; VStr "Highs"; VStr "All"])] ].
+Definition ex_col : list val :=
+  repeat (VStr "Low") 10 ++ repeat (VStr "Low-") 2 ++ repeat (VStr "High") 3 ++ [VStr "High-"]
+  ++ [VNaN; VNaN; VStr "u1"; VStr "u2"].
+Definition ex_mf : Z * Z := (3602879701896397, -54).      (* 0.2 *)
+
+Lemma chained_example :
+  exists c g lpv, fitted ex_levels ex_col ex_mf true c g lpv /\
+    aget (VStr "Low-") (content_map g) = Some (VStr "All") /\
+    aget (VStr "Low") (content_map g) = Some (VStr "Low") /\
+    aget (VStr "High-") (content_map g) = Some (VStr "Highs") /\
+    aget (VStr "u2") (content_map g) = Some nan_s.
+Proof.
+  destruct (init ex_levels) as [c| |] eqn:Ei; try (vm_compute in Ei; discriminate).
+  destruct (fit ex_levels ex_col ex_mf true) as [[|g lpv]| |] eqn:Ef; try (vm_compute in Ef; discriminate).
+  exists c, g, lpv. vm_compute in Ei. injection Ei as <-. vm_compute in Ef. injection Ef as <- <-.
+  split; [|repeat split; vm_compute; reflexivity].
+  split; [|split; [reflexivity|split]].
+  - intros d [<-|[<-|[]]]; apply nodupb_NoDup; vm_compute; reflexivity.
+  - intros lv [<-|[<-|[]]]; split; intro H; apply mem_In in H; vm_compute in H; discriminate.
+  - vm_compute. reflexivity.
 Qed.
